@@ -182,7 +182,7 @@ theorem C14_resolved_args_sound (src m : TGrammar) (h : resolveAll src = some m)
 
 /-- `PropagateLookaheads`, full statement: propagation keeps the meaning of every input. -/
 def C14_propagate_args_sound_full : Prop :=
-  ∀ (m m' : TGrammar), propagate m = (.ok, m') →
+  ∀ (q : Quirks) (m m' : TGrammar), propagate q m = (.ok, m') →
     ∀ (k : Nat) (i : Nat × Bool), m.inputs[k]? = some i → ∀ w,
       (Der (laImp m) m i.1 env0 w ↔ Der noImp m' i.1 env0 w)
 
@@ -206,17 +206,17 @@ derives at SOURCE level with nothing bound: parameters of the nonterminals below
 arguments, from the caller's parameter of the same name, or from their DEFAULTS; lookahead flags are
 `false` unless passed. Hypotheses: the propagation certificate (third component of `compile`, checked by
 the driver on every case) and `NoDead` (see `C14_dead_instance_counterexample`). -/
-theorem C14_pipeline_inputs_use_defaults (src : TGrammar) (fuel : Nat) (insts : List Inst) (G : Grammar)
-    (h : compile src fuel = (.ok, some (insts, G), true))
+theorem C14_pipeline_inputs_use_defaults (q : Quirks) (src : TGrammar) (fuel : Nat) (insts : List Inst) (G : Grammar)
+    (h : compile q src fuel = (.ok, some (insts, G), true))
     (k : Nat) (i : Nat × Bool) (hk : src.inputs[k]? = some i) (w : List Nat) :
     ∃ m', (NoDead m' insts → (Sentence G k w ↔ Der (srcImp src) src i.1 env0 w)) ∧
-      (∃ m, resolveAll src = some m ∧ propagate m = (.ok, m') ∧ instantiate m' fuel = some (insts, G)) := by
+      (∃ m, resolveAll src = some m ∧ propagate q m = (.ok, m') ∧ instantiate m' fuel = some (insts, G)) := by
   unfold compile at h
   cases hr : resolveAll src with
   | none => simp [hr] at h
   | some m =>
     simp only [hr] at h
-    cases hp : propagate m with
+    cases hp : propagate q m with
     | mk st m' =>
       cases st with
       | err => simp [hp] at h
@@ -260,7 +260,7 @@ def pipelineExample : TGrammar :=
             ⟨[1], [⟨some (.and [.eq 0 1, .eq 1 1]), [.t 3]⟩, ⟨none, [.t 1]⟩]⟩],
     inputs := [(0, true)] }
 
-example : ∃ insts G, compile pipelineExample 20 = (.ok, some (insts, G), true) ∧
+example : ∃ insts G, compile ⟨true, true⟩ pipelineExample 20 = (.ok, some (insts, G), true) ∧
     insts = [⟨0, []⟩, ⟨1, [(1, 1), (0, 1)]⟩, ⟨1, [(1, 1), (0, 0)]⟩] ∧
     G.rules.toList = [⟨4, [5, 1], 0⟩, ⟨4, [2, 6], 0⟩, ⟨5, [3], 0⟩, ⟨5, [1], 0⟩, ⟨6, [1], 0⟩] :=
   ⟨_, _, rfl, rfl, rfl⟩
